@@ -828,6 +828,9 @@ func init() {
 			_ = tweakDone
 			st, _ := UnmarshalGenesis(sc.Genesis)
 			distinctGenesisTable(r, &st)
+			if r.Intn(3) == 0 {
+				priceSwarm(rand.New(rand.NewSource(r.Int63())), &st.Commission)
+			}
 			sc.Genesis = MarshalGenesis(st)
 			for i := range sc.Blocks {
 				for j := range sc.Blocks[i].Ops {
